@@ -1018,12 +1018,19 @@ func (g *G) genCallCommon(c *cur, in *am.Inst) bool {
 		in.FnAttrs = []string{g.pick("cfa", []string{"nounwind", "readnone", "noreturn", "cold", "nobuiltin", "\"k\"=\"v\"", "\"s\""})}
 	}
 	if g.chance("bundle", 1, 8) && !g.off("operand-bundle") {
-		b := &am.Bundle{Tag: g.pick("btag", []string{"foo", "my bundle", "x.y"})}
-		for k := g.rng("nbundleargs", 0, 2); k > 0; k-- {
-			b.Args = append(b.Args, c.val(g.scalarType()))
+		// one to three bundles with distinct tags (LLVM rejects a repeated tag for the known bundle kinds only)
+		tags := []string{"foo", "my bundle", "x.y"}
+		for nb := g.rng("nbundles", 1, 3); nb > 0; nb-- {
+			b := &am.Bundle{Tag: tags[nb-1]}
+			for k := g.rng("nbundleargs", 0, 2); k > 0; k-- {
+				b.Args = append(b.Args, c.val(g.scalarType()))
+			}
+			in.Bundles = append(in.Bundles, b)
 		}
-		in.Bundles = append(in.Bundles, b)
 		g.feat("call/bundle")
+		if len(in.Bundles) > 1 {
+			g.feat("call/several-bundles")
+		}
 	}
 	return true
 }
